@@ -31,6 +31,14 @@ type simObj struct {
 	edited  bool
 	origin  string
 	invalid bool // content unspecified (consumed by reuse or failed parse); may still be passed as reuse
+	kept    []keptIter
+}
+
+// keptIter is an iterator value the caller held on to after an edit (a copy, the way Elements keep theirs): a later
+// Set* through it addresses the same tape position, whatever was written there in between.
+type keptIter struct {
+	pos Pos
+	it  simdjson.Iter
 }
 
 func (o *simObj) readable() bool {
@@ -801,6 +809,16 @@ func opSet(r *Run, o *simObj, what string) {
 		return
 	}
 	kind := c.Intn("setkind", 7)
+	if len(o.kept) > 0 && c.Intn("usekept", 4) == 0 {
+		// through an iterator copy kept from an earlier edit of a number or string (both stay two tape entries wide,
+		// and every number/string setter is allowed on either)
+		k := o.kept[c.Intn("keptidx", len(o.kept))]
+		if m := getAt(o.model, k.pos); m != nil && (m.K == KInt || m.K == KUint || m.K == KFloat || m.K == KString) {
+			pos, cur, it, itp, els, nav = k.pos, m, k.it, &it, nil, 3
+			kind = 2 + c.Intn("keptkind", 5)
+			r.stat("set_through_kept_iterator", 1)
+		}
+	}
 	var nv *MV
 	var allowed bool
 	var call func() error
@@ -878,6 +896,12 @@ func opSet(r *Run, o *simObj, what string) {
 				r.violate("set", "iter-stale", fmt.Sprintf("%s: after %s the same iterator reads %v (%v)", what, name, got, err))
 			}
 		}
+		if nav != 2 && !r.failed() && (nv.K == KInt || nv.K == KUint || nv.K == KFloat || nv.K == KString) && c.Intn("keepiter", 3) == 0 {
+			o.kept = append(o.kept, keptIter{pos: append(Pos(nil), pos...), it: *itp})
+			if len(o.kept) > 4 {
+				o.kept = o.kept[1:]
+			}
+		}
 		if els != nil && !r.failed() {
 			// the Elements the value was addressed through marshals the object with the new value
 			par := getAt(o.model, pos[:len(pos)-1])
@@ -941,6 +965,7 @@ func opDelete(r *Run, o *simObj, what string) { opDeleteAt(r, o, what, nil, -1) 
 // opDeleteAt is opDelete with the container and the member subset given (forcedMask >= 0).
 func opDeleteAt(r *Run, o *simObj, what string, forcedPos Pos, forcedMask int) {
 	c := r.C
+	o.kept = nil // member positions shift: iterators kept from earlier edits are not used across a deletion
 	conts := allContainers(o.model)
 	if len(conts) == 0 {
 		return
